@@ -202,6 +202,50 @@ def through_validator(ctx, rng, doc):
             ctx.violation("validator-wrong-target", case, "reference did not reach the marker schema")
 
 
+def reused_validator_pointers(ctx, rng, doc):
+    """One validator object whose references are pointers into the same document, some addressing a marker schema and
+    one addressing nothing: a pointer that failed cleanly (RefResolutionError) must leave the next ones resolving to
+    exactly what they address."""
+    locs = [(p, t) for p, t in locations(doc) if p]
+    if not locs or not isinstance(doc, (dict, list)):
+        return
+    import copy
+    path, _ = rng.choice(locs)
+    marker = "marker-%d" % rng.randrange(10 ** 6)
+    d2 = copy.deepcopy(doc)
+    cur = d2
+    for p in path[:-1]:
+        cur = cur[p]
+    cur[path[-1]] = {"enum": [marker]}
+    good = next(iter(encodings(rng, ["x"] + tokens(path))))
+    bad = next(iter(encodings(rng, ["x"] + tokens(path) + ["vf-missing", "0"])))
+    for d in impl.DRAFTS:
+        schema = {"x": d2, "properties": {"good": {"$ref": "#" + good}, "bad": {"$ref": "#" + bad}, "good2": {"items": {"$ref": "#" + good}}}}
+        if rng.random() < 0.5:
+            schema[impl.IDKW[d]] = "http://vf.example/c14/root.json"
+        case = {"draft": d, "schema": schema, "reused": True, "marker": marker}
+        ctx.count("reused_validator_pointer_sequences")
+        ctx.case([d, schema, "reused"])
+        v = impl.CLS[d](schema)
+        steps = [({"good": marker}, True), ({"bad": 1}, "RefResolutionError"), ({"good": marker}, True), ({"good": marker + "x"}, False),
+                 ({"good2": [marker, marker]}, True), ({"bad": 1, "good": marker}, "RefResolutionError"), ({"good2": [marker, 1]}, False),
+                 ({"good": marker}, True)]
+        for k, (inst, want) in enumerate(steps):
+            try:
+                got = v.is_valid(inst) if k % 2 == 0 else not list(v.iter_errors(inst))
+            except RefResolutionError:
+                got = "RefResolutionError"
+            except Exception as e:
+                got = "exc:%s: %s" % (type(e).__name__, str(e)[:80])
+            if got == "RefResolutionError" and want != "RefResolutionError" and k > 0:
+                ctx.violation("positive-raised-after-a-clean-failure", dict(case, step=k, instance=inst),
+                              "step %d: RefResolutionError for a pointer that addresses the marker schema (an earlier pointer on this validator addressed nothing)" % k)
+                break
+            if got != want:
+                ctx.violation("validator-wrong-target", dict(case, step=k, instance=inst), "step %d gave %r, expected %r" % (k, got, want))
+                break
+
+
 def negative(ctx, rng, doc):
     R = resolver()
     locs = list(locations(doc))
@@ -273,6 +317,7 @@ def run(ctx):
             positive(ctx, rr, doc)
             negative(ctx, rr, doc)
             through_validator(ctx, rr, doc)
+            reused_validator_pointers(ctx, rr, doc)
     short_lived_documents(ctx, ctx.scale(400, 5000))
     rng = ctx.rng
     for i in range(ctx.scale(1500, 25000)):
@@ -281,6 +326,8 @@ def run(ctx):
         negative(ctx, rng, doc)
         if i % 3 == 0:
             through_validator(ctx, rng, doc)
+        if i % 4 == 1:
+            reused_validator_pointers(ctx, rng, doc)
         if i % 400 == 0:
             ctx.sample({"document": doc, "fragments": [U.fragment_for(tokens(p)) for p, _ in list(locations(doc))[:4]]})
 
@@ -303,6 +350,19 @@ def replay(ctx, rec):
             want = ("RefResolutionError", None)
         if out[0] != want[0] or (out[0] == "value" and not (out[1] == want[1] and type(out[1]) is type(want[1]))):
             ctx.violation("replay", c, "implementation %r, own evaluator %r" % (out, want))
+    elif c.get("reused"):
+        v = impl.CLS[c["draft"]](c["schema"])
+        m = c["marker"]
+        for inst, want in (({"good": m}, True), ({"bad": 1}, None), ({"good": m}, True), ({"good": m + "x"}, False)):
+            try:
+                got = v.is_valid(inst)
+            except RefResolutionError:
+                got = None
+            except Exception as e:
+                got = type(e).__name__
+            if got != want:
+                ctx.violation("replay", c, "instance %r gave %r, expected %r" % (inst, got, want))
+                break
     else:
         v = impl.CLS[c["draft"]](c["schema"])
         try:
